@@ -335,7 +335,7 @@ def check_c18(tier):
     specs = []
     for bt in base:
         (c, d, ds, m, o) = bt[:5]; only = bt[5] if len(bt) > 5 else None      # `only`: a large configuration that runs under the named sanitizer builds only
-        fl = bt[6] if len(bt) > 6 else ['--copy', '--replica']
+        fl = bt[6] if len(bt) > 6 else (['--copy', '--replica'] if (c in ('T2', 'P3', 'T3', 'T5') or tier == 'thorough') else [])   # companions (copies, replicas) run under the sanitizers too
         specs.append(S(c, d, m, o, variant='plain', flags=fl, props=['C18']))     # alignment + allocation monitors, full speed
         for v in (only or SAN):
             specs.append(S(c, ds, m, o, variant=v, flags=fl, props=['C18'], share=3 if v == 'msan' else 1))
